@@ -135,4 +135,12 @@ def main():
 
 
 if __name__ == '__main__':
-    main()
+    try:
+        main()
+    except SystemExit:
+        raise
+    except BaseException:
+        import traceback
+        traceback.print_exc()
+        print('HARNESS-ERROR: the runner itself failed (see traceback)')
+        sys.exit(2)
